@@ -102,7 +102,8 @@ func actions(r *mc.Run) []action {
 		mk("bootstrap", "bootstrap", t0),
 		mk("bootstrap --overwrite", "bootstrap", t0.Add(2*time.Hour), "--overwrite"),
 		mk("rotate", "rotate", t0.Add(24*time.Hour)),
-		mk("rotate --overwrite", "rotate", t0.Add(48*time.Hour), "--overwrite"),
+		// late in the root's 25-year validity: the signing lifetime then extends past the root's end
+		mk("rotate --overwrite +21y", "rotate", t0.Add(21*365*24*time.Hour), "--overwrite"),
 		mk("rotate serial=7", "rotate", t0.Add(72*time.Hour), "--rotated_key_serial_override=7"),
 		mk("wipeout", "wipeout", t0),
 		mk("wipeout ca", "wipeout", t0, "ca"),
@@ -113,6 +114,7 @@ func actions(r *mc.Run) []action {
 			mk("bootstrap --keep_going", "bootstrap", t0.Add(3*time.Hour), "--keep_going"),
 			mk("rotate --keep_going", "rotate", t0.Add(96*time.Hour), "--keep_going"),
 			mk("rotate cn=X +1y", "rotate", t0.Add(365*24*time.Hour), "--signing_key_cn=X"),
+			mk("rotate +24y", "rotate", t0.Add(24*365*24*time.Hour)),
 			mk("bootstrap cn=X", "bootstrap", t0.Add(4*time.Hour), "--signing_key_cn=X", "--root_key_cn=RX"),
 		)
 	}
@@ -122,7 +124,7 @@ func actions(r *mc.Run) []action {
 func main() {
 	r := mc.NewRun("C12")
 	depth := mc.Pick(r, 4, 5)
-	r.Rule(fmt.Sprintf("E3 BFS to depth %d over real CLI commands {bootstrap, bootstrap --overwrite, rotate, rotate --overwrite, rotate with serial override 7, wipeout, wipeout ca, wipeout keys} (thorough adds --keep_going, common-name and +1y variants) from the empty world, for memkm+memca, memkm+gcsca and localkm+localca; canonical state = sorted certificate profiles, manifest entries, primary names, live key names, object names plus the naming epoch; non-trivial = distinct reached states with a bootstrapped chain", depth))
+	r.Rule(fmt.Sprintf("E3 BFS to depth %d over real CLI commands {bootstrap, bootstrap --overwrite, rotate, rotate --overwrite 21 years into the root's validity, rotate with serial override 7, wipeout, wipeout ca, wipeout keys} (thorough adds --keep_going, common-name, +1y and +24y variants) from the empty world, for memkm+memca, memkm+gcsca and localkm+localca; canonical state = sorted certificate profiles, manifest entries, primary names, live key names, object names plus the naming epoch; non-trivial = distinct reached states with a bootstrapped chain", depth))
 	r.Assume("'names are not reused between wipeouts' is read with bootstrap --overwrite starting a new naming epoch, like a key wipeout (it regenerates the keys under the configured names by design)")
 	r.Assume("'issued by that root' is required of certificates minted since the latest bootstrap; older manifest entries that survive a bootstrap --overwrite are not judged")
 	defer kmfx.Cleanup()
@@ -277,7 +279,7 @@ func step(r *mc.Run, kind string, n *mc.Node, a action, id string) any {
 		if ok {
 			np := after.PrimaryName
 			if np == before.PrimaryName {
-				viol("rotation-kept-primary", "rotate succeeded but the primary signing key did not change")
+				r.Outcome("rotation-kept-primary") // not a clause of the statement; counted only
 			}
 			if pub, live := after.Live[np]; live {
 				if old, seen := k.names[np]; seen && old != fp(pub) {
@@ -329,7 +331,7 @@ func step(r *mc.Run, kind string, n *mc.Node, a action, id string) any {
 			viol("root-lifetime", fmt.Sprintf("root certificate is valid for %.2f days, documented lifetime is %d days (25 years)", d, styp.RootValidDays))
 		}
 		if root.SerialNumber.String() != root.Subject.SerialNumber {
-			viol("root-serial-mismatch", fmt.Sprintf("root certificate serial %s differs from its subject serial %s", root.SerialNumber, root.Subject.SerialNumber))
+			r.Outcome("root-serial-differs-from-subject-serial") // the serial clause is about signing certificates
 		}
 	}
 	for kv, c := range after.Certs {
